@@ -15,7 +15,7 @@ one() {
   d=$(mktemp -d $2/w.XXXXXX)
   rsync -a --exclude .git /repo/ $d/src/
   cp "$2/m_$b/$id.go.mut" "$d/src/$f"
-  fired=$(/verif/bin/xcheck -prop all -repo $d/src -verif $3 2>&1 | grep -E '^(VIOLATED|UNDECIDED|CHECKER)' | head -4 | sed 's/ at .*//' | tr '\n' ';')
+  fired=$(${XCHECK:-/verif/bin/xcheck} -prop all -repo $d/src -verif $3 2>&1 | grep -E '^(VIOLATED|UNDECIDED|CHECKER)' | head -4 | sed 's/ at .*//' | tr '\n' ';')
   if [ -n "$(echo $fired | tr -d ' ;')" ]; then st=caught; else st=SURVIVED; fired=-; fi
   printf '%s\t%s\t%s\t%s\t%s\t%s\t%s\n' "$id" "$f" "$line" "$op" "$desc" "$st" "$fired"
   rm -rf $d
